@@ -57,6 +57,9 @@ type kvElection struct {
 	ctx    context.Context
 	cancel context.CancelFunc
 
+	// termCancel ends the context of the current leadership term (guarded by mu).
+	termCancel context.CancelFunc
+
 	onPromote func(ctx context.Context, token string)
 	onDemote  func()
 
@@ -407,16 +410,22 @@ func (e *kvElection) becomeLeader(token string, rev uint64) {
 		)...,
 	)
 
+	// Everything that belongs to this term (heartbeat, validation, the
+	// context handed to OnPromote) hangs off a per-term context that is
+	// cancelled as soon as the term ends, by demotion or by stopping.
+	termCtx, termCancel := context.WithCancel(e.ctx)
+	e.termCancel = termCancel
+
 	e.wg.Add(1)
 	go func() {
 		defer e.wg.Done()
-		e.heartbeatLoop(e.ctx)
+		e.heartbeatLoop(termCtx)
 	}()
 
 	e.wg.Add(1)
 	go func() {
 		defer e.wg.Done()
-		e.validationLoop(e.ctx)
+		e.validationLoop(termCtx)
 	}()
 
 	if e.onPromote != nil {
@@ -438,7 +447,7 @@ func (e *kvElection) becomeLeader(token string, rev uint64) {
 					)
 				}
 			}()
-			promoteCtx, cancel := context.WithCancel(e.ctx)
+			promoteCtx, cancel := context.WithCancel(termCtx)
 			defer cancel()
 			e.onPromote(promoteCtx, token)
 		}()
@@ -538,6 +547,10 @@ func (e *kvElection) becomeFollowerLocked() bool {
 	if wasLeader {
 		e.recordLeaderDuration()
 		e.leaderStartTime.Store(time.Time{})
+		if e.termCancel != nil {
+			e.termCancel()
+			e.termCancel = nil
+		}
 	}
 
 	e.recordTransition(fromState, StateFollower)
